@@ -246,6 +246,20 @@ func (ev *evaluator) eval(e Expr, at interface{ Pos() (string, int) }) Value {
 		return e.Val
 	case Exec:
 		return ev.exec(e, at)
+	case IssetChain:
+		func() {
+			sc, ctx, content := ev.sc, ev.ctx, ev.content
+			defer func() {
+				if r := recover(); r != nil {
+					if _, ok := r.(*Failure); !ok {
+						panic(r)
+					}
+					ev.sc, ev.ctx, ev.content = sc, ctx, content
+				}
+			}()
+			ev.eval(e.E, at)
+		}()
+		return Bool(false)
 	case IncludeIfExists:
 		f := ev.p.Resolve(e.Name, "")
 		if f == nil {
